@@ -204,6 +204,8 @@ type c11TCP struct {
 	N        int `json:"n"`         // complete requests
 	ReplyLen int `json:"reply_len"` // bytes of each reply's payload
 	DelayMS  int `json:"delay_ms"`  // the client starts reading this long after its half-close
+	// Quit: instead of a partial request and a half-close the client ends its pipeline with QUIT (and keeps its sending side open)
+	Quit bool `json:"quit,omitempty"`
 }
 
 func evalC11TCP(c c11TCP) *Failure {
@@ -228,10 +230,16 @@ func evalC11TCP(c c11TCP) *Failure {
 	for i := 0; i < c.N; i++ {
 		req = append(req, resp.Cmd("GET", fmt.Sprintf("k%d", i)).Bytes()...)
 	}
-	req = append(req, []byte("*2\r\n$3\r\nGET\r\n$7\r\npart")...)
+	if c.Quit {
+		req = append(req, resp.Cmd("QUIT").Bytes()...)
+	} else {
+		req = append(req, []byte("*2\r\n$3\r\nGET\r\n$7\r\npart")...)
+	}
 	go func() {
 		conn.Write(req)
-		conn.(*net.TCPConn).CloseWrite()
+		if !c.Quit {
+			conn.(*net.TCPConn).CloseWrite()
+		}
 	}()
 	time.Sleep(time.Duration(c.DelayMS) * time.Millisecond)
 	conn.SetReadDeadline(time.Now().Add(60 * time.Second))
@@ -248,6 +256,12 @@ func evalC11TCP(c c11TCP) *Failure {
 		time.Sleep(200 * time.Microsecond) // a slow reader
 	}
 	frames, _, derr := resp.DecodeAll(got)
+	if c.Quit {
+		if len(frames) != c.N+1 || !frames[c.N].Equal(resp.S("OK")) {
+			return failf("c11|replies", "%s (QUIT last): received %d complete replies (%d bytes, then %v; tail %v), want the %d replies and +OK", what, len(frames), len(got), rerr, derr, c.N)
+		}
+		frames = frames[:c.N]
+	}
 	if len(frames) != c.N {
 		return failf("c11|replies", "%s: received %d complete replies (%d bytes, then %v; tail %v), the %d completely received requests produce %d", what, len(frames), len(got), rerr, derr, c.N, c.N)
 	}
